@@ -139,6 +139,7 @@ def _run_chunks(binary, lines, env=None, timeout=900, nproc=None):
     for t in ths:
         t.join()
     res = {}
+    LAST_STDERR[:] = [e for (o, e, rc) in outs if e]
     for (o, e, rc), (_, ch) in zip(outs, procs):
         got = {}
         for ln in o.splitlines():
@@ -153,6 +154,19 @@ def _run_chunks(binary, lines, env=None, timeout=900, nproc=None):
                 tail = (e or '').strip().splitlines()[-3:]
                 res[cid] = 'crash rc=%s %s' % (rc, ' / '.join(tail)[:300])
     return res
+
+
+LAST_STDERR = []
+
+
+def race_reports():
+    """DATA RACE reports printed to stderr by the processes of the most recent run"""
+    reps = []
+    for e in LAST_STDERR:
+        for blk in e.split('=================='):
+            if 'WARNING: DATA RACE' in blk:
+                reps.append(blk.strip()[:4000])
+    return reps
 
 
 def run_go(lines, env_extra=None, race=False, timeout=900, nproc=None):
